@@ -4,9 +4,11 @@ use crate::runner::Prop;
 pub mod c01;
 pub mod c02;
 pub mod c03;
+pub mod c12;
+pub mod c13;
 
 pub fn all() -> Vec<Prop> {
-    vec![c01::prop(), c02::prop(), c03::prop()]
+    vec![c01::prop(), c02::prop(), c03::prop(), c12::prop(), c13::prop()]
 }
 
 /// Auxiliary child entry points used by custom stages (`verif aux --prop ID ...`).
